@@ -10,6 +10,8 @@
  E4 PREFIX-ORDER      the numeric order of the type prefixes is the documented type order.
  E5 ZERO-SHARED       integer zero and float zero are the only values sharing a key: ZERO is pushed only by encode_int /
                       encode_float (and their siblings), each under an exact `== 0` test.
+ E6 TERMINATOR-IN-STEP the consumed length of decode_escaped_bytes derives from the cursor stepped token by token (the
+                      terminator `00 00` is only recognisable at a token boundary).
 Byte order = value order for every value is NOT decided (numeric).
 """
 from model import CheckError, operand_place
@@ -128,6 +130,7 @@ def run(ctx):
         okz = bool(i) and i[0] > 0 and sig[i[0] - 1][0] == "cond" and sig[i[0] - 1][1] == "Eq" and str(sig[i[0] - 1][2]) in ("0", "0f64")
         ctx.ob("E5.ZERO-EXACT", fid.rsplit("::", 1)[-1], okz, "ZERO chosen by an exact == 0 test" if okz else
                "ZERO is not guarded by an exact == 0 test: non-zero values collapse into the zero key", m.fn(fid).loc())
+    terminator_in_step(ctx, K + "decode_escaped_bytes")
 
 
 def region_bits(f, blocks):
@@ -159,3 +162,43 @@ def consumed_consts(f, blocks):
                 if b[0] == "k" and b[4] is not None and "usize" in b[2]:
                     out.add(b[4])
     return out
+
+
+def terminator_in_step(ctx, fid):
+    """E6 TERMINATOR-IN-STEP: in the escaped-bytes format (00 -> 00 FF, FF -> FF 00, end = 00 00) a token boundary is known only
+    by walking the tokens from the start: the pair `00 00` also occurs across the boundary of `FF 00` and a following `00 ..`.
+    The consumed length returned with the decoded bytes must therefore derive from the cursor the decode loop steps token by
+    token, not from an independent search of the raw bytes."""
+    import dmlrules
+    f = ctx.m.fn(fid)
+    loops = f.loops()
+    inloop = set()
+    for _, body in loops:
+        inloop |= set(body)
+    cursors = set()
+    for l, ds in f.defs().items():
+        if len(ds) >= 2 and "usize" == f.locals[l] and any(d[1] in inloop for d in ds) and any(
+                d[0] == "stmt" and l in dmlrules._deps(f, operand_place(d[3][1])[0], 40) for d in ds
+                if d[0] == "stmt" and d[3][0] == "use" and operand_place(d[3][1]) is not None and d[1] in inloop):
+            cursors.add(l)
+    if not cursors:
+        ctx.ob("E6.TERMINATOR-IN-STEP", fid.rsplit("::", 1)[-1], False, "the decoder has no cursor stepped inside a loop: the terminator "
+               "cannot be located by a token-aligned walk", f.loc())
+        return
+    sites = []
+    for bb, b in enumerate(f.blocks):
+        for s in b["s"]:
+            if s[0] == "=" and s[2][0] == "agg" and s[2][1] == "tuple" and len(s[2][4]) == 2:
+                q = operand_place(s[2][4][1])
+                if q is not None and not q[1] and f.locals[q[0]] == "usize":
+                    sites.append((bb, s[3], q[0]))
+    if not sites:
+        raise CheckError("%s: (bytes, consumed) result not found" % fid)
+    for bb, line, l in sites:
+        dep = dmlrules._deps(f, l, 200)
+        ok = bool(dep & cursors)
+        ctx.ob("E6.TERMINATOR-IN-STEP", "%s@%d" % (fid.rsplit("::", 1)[-1], sites.index((bb, line, l))), ok,
+               "consumed length derives from the token cursor" if ok else
+               "the consumed length returned at L%s does not derive from the cursor the decode loop steps token by token: the terminator is "
+               "located by a search that is not aligned to escape tokens (`FF 00` followed by `00 ..` contains `00 00` one byte early)" % line,
+               "%s:%s" % (f.file, line))
